@@ -5,6 +5,8 @@ CONSTANTS
   MaxIter = 12
   SeqMaxUnits = 8
   Record = FALSE
+  Lag = 1
+  Repair = FALSE
   Bug = "none"
 VIEW view
 INVARIANT DownClosed
